@@ -139,9 +139,12 @@ func cmdWorker(args []string) {
 			rep.Samples = append(rep.Samples, sampleOf(res))
 		}
 		for _, v := range res.Violations {
+			// A violation that belongs to another property (the queue workloads
+			// of C04 and C05 share their oracles) is reported under ITS property
+			// id, never dropped: the program shapes of one check are not run by
+			// the other.
 			if *only != "" && v.Property != *only {
-				rep.Probes["other_property_violation_"+v.Property+"_"+v.Class]++
-				continue
+				rep.Probes["violation_of_other_property_"+v.Property]++
 			}
 			rep.ViolCount[v.Key()]++
 			if fv := rep.Violations[v.Key()]; fv != nil {
